@@ -53,6 +53,11 @@ def main(argv=None):
         out['rule'] = getattr(mod, 'RULE', '')
         out['assumptions'] = list(getattr(mod, 'ASSUMPTIONS', []))
         mod.run(ctx)
+        # the repository's own tests as an extra workload under the module's (self-sufficient) monitors
+        want = only is None and a.tier == 'thorough' and shard == 0 and flavour == 'plain' and os.environ.get('VF_FIRST_SEED') == str(a.seed)
+        if os.environ.get('VF_REPOTESTS') == 'force' or (getattr(mod, 'REPOTESTS', False) and (want or (only is not None and ('repotests', 0) in only))):
+            from vf import repotests
+            repotests.run(ctx)
     except BaseException as e:  # harness failure => inconclusive, never 'held'
         out['harness_error'] = ''.join(traceback.format_exception(type(e), e, e.__traceback__))[-4000:]
     out.update(rec.to_json())
